@@ -22,6 +22,7 @@ def tasks(tier, seed=0):
     for w in ("is_true", "is_false"):
         out.append(task(M, "ob_backend_cache", f"truth.Backend.{w}/cache-invariant", ["C10"], which=w))
         out.append(task(M, "ob_concrete_truth", f"truth.BackendConcrete.{w}/sound", ["C10"], which=w))
+        out.append(task(M, "ob_concrete_truth_node", f"truth.BackendConcrete.{w}[any expression]/sound", ["C10"], which=w, tier=tier))
         out.append(task(M, "ob_bool_check", f"truth.bool_check.{w}/sound", ["C10"], which=w))
         out.append(task(M, "ob_bool_check_node", f"truth.bool_check.{w}[structured-expression]/sound", ["C10"], which=w))
         out.append(task(M, "ob_z3_truth", f"truth.BackendZ3._{w}/sound-for-every-solver", ["C10"], which=w))
